@@ -135,7 +135,7 @@ class Oracle:
         return out
 
 
-def avoiding_decomposition(paths, flow, P, integer=False, ignore=()):
+def avoiding_decomposition(paths, flow, P, integer=False, ignore=(), upper=None):
     """is `flow` (dict edge -> value) a non-negative (integer) combination of the paths that do not contain P as a sub-path
     (edges in `ignore` need not be explained)?  -> (bool, witness)"""
     import z3
@@ -152,7 +152,11 @@ def avoiding_decomposition(paths, flow, P, integer=False, ignore=()):
             continue
         fr = Fraction(fe).limit_denominator(10 ** 6)
         terms = [w[i] for i, r in enumerate(R) if e in r]
-        s.add((z3.Sum(terms) if terms else z3.RealVal(0)) == z3.RealVal(str(fr)))
+        tot = z3.Sum(terms) if terms else z3.RealVal(0)
+        if upper is None:
+            s.add(tot == z3.RealVal(str(fr)))
+        else:                                        # inexact flow: any conserving flow inside [flow(e), upper(e)] may be decomposed
+            s.add(tot >= z3.RealVal(str(fr)), tot <= z3.RealVal(str(Fraction(upper[e]).limit_denominator(10 ** 6))))
     res = s.check()
     if res == z3.sat:
         m = s.model()
@@ -292,6 +296,10 @@ def cases(tier):
                 fl = list(graphs.flows_from_paths(G, weightsets=FLOW_WEIGHTS))
                 for fi, (H, f) in enumerate(fl[: (5 if quick else 10)]):
                     yield dict(kind="flow_fn", edges=[[u, v, f[(u, v)]] for u, v in sorted(G.edges())], wt="int")
+                    if fi == 0 and G.number_of_edges() >= 2:
+                        ne = G.number_of_edges()
+                        for pat in (((0, 0), (1, 0)), ((1, 1), (0, 0), (0, 2))):
+                            yield dict(kind="flow_fn", edges=[[u, v, f[(u, v)]] for u, v in sorted(G.edges())], wt="int", widths=[list(pat[(i + gi) % len(pat)]) for i in range(ne)])
                     if fi == 1:
                         yield dict(kind="flow_fn", edges=[[u, v, f[(u, v)] / 2.0] for u, v in sorted(G.edges())], wt="float")
                 # zero-flow edges: one path only
@@ -351,6 +359,16 @@ def cases(tier):
                                         continue
                                     yield dict(kind="cyc_model", model="kPathCoverCycles" if ci % 2 else "kMinPathErrorCycles", edges=sorted(E), starts=st, ends=en,
                                                X=sorted(E), k=(2, 3, 4)[ci % 3], opts=opts)
+        # a graph object that served an earlier model and was then extended in place by the caller (an arm a -> r -> b)
+        if ni == 0:
+            arms = [[("w%d" % i, "z%d" % i), ("z%d" % i, "a")] for i in (1, 2, 3)]
+            core_ = [("a", "p"), ("p", "b"), ("a", "q"), ("q", "b"), ("q", "x"), ("x", "q"), ("b", "c")]
+            grown = [("a", "r"), ("r", "b")]
+            E = sorted([list(e) for arm in arms for e in arm] + [list(e) for e in core_ + grown])
+            for k in (3, 4):
+                yield dict(kind="cyc_model", model="kPathCoverCycles", edges=E, starts=[], ends=[], X=E, k=k, opts={}, grow=[list(e) for e in grown])
+            E2 = sorted([list(e) for e in [("x", "y"), ("y", "z"), ("z", "y"), ("y", "w"), ("y", "r"), ("r", "w")]])
+            yield dict(kind="cyc_model", model="kPathCoverCycles", edges=E2, starts=[], ends=[], X=E2, k=2, opts={}, grow=[["y", "r"], ["r", "w"]])
         # DAG
         for n in ((2, 3, 4) if quick else (2, 3, 4, 5)):
             for gi, G in enumerate(graphs.dags(n, names)):
@@ -515,8 +533,8 @@ def check_cyc_fn(case):
     return _done(orc, n, dict(sequences=len(seqs)))
 
 
-def _flow_check(case, G, paths_edges, who, ctx, ignore=()):
-    flow = {(u, v): f for u, v, f in case["edges"]}
+def _flow_check(case, G, paths_edges, who, ctx, ignore=(), lower=None, upper=None):
+    flow = lower if lower is not None else {(u, v): f for u, v, f in case["edges"]}
     ignore = set(tuple(e) for e in ignore)
     routes = []
     for p in graphs.st_paths(G):
@@ -530,12 +548,12 @@ def _flow_check(case, G, paths_edges, who, ctx, ignore=()):
         if not all(G.has_edge(*e) for e in P) or any(P[i][1] != P[i + 1][0] for i in range(len(P) - 1)):
             return _fail("%s returned something that is not a path of the graph" % who, "%s: %s" % (ctx, P)), n
         n += 1
-        bad, wit = avoiding_decomposition(routes, flow, P, integer=False, ignore=ignore)
+        bad, wit = avoiding_decomposition(routes, flow, P, integer=False, ignore=ignore, upper=upper)
         if bad is None:
             return dict(ok=None, nontrivial=False, what="z3 returned unknown on the avoiding-decomposition LP"), n
         if bad:
             ibad = None
-            if all(float(v) == int(v) for v in flow.values()):
+            if upper is None and all(float(v) == int(v) for v in flow.values()):
                 ibad, iw = avoiding_decomposition(routes, flow, P, integer=True, ignore=ignore)
                 if ibad:
                     wit = iw
@@ -556,6 +574,21 @@ def check_flow_fn(case):
         n += k
         if f:
             return f
+    # inexact flows: every edge carries an interval [lb, ub] around the value (widths from a fixed pattern); a reported path must be contained in
+    # some path of EVERY decomposition of EVERY conserving flow inside the intervals
+    if case.get("widths"):
+        import flowpaths as fp
+        lo, hi = {}, {}
+        for (u, v, f), (dl, dh) in zip(case["edges"], case["widths"]):
+            lo[(u, v)], hi[(u, v)] = max(min(1, wt(f)), wt(f) - wt(dl)), wt(f) + wt(dh)      # lower bounds stay positive where the value is (an edge that may carry nothing is trivially unsafe)
+            G[u][v]["lb"], G[u][v]["ub"] = lo[(u, v)], hi[(u, v)]
+        dec = fp.stDAG(G).decompose_using_max_bottleneck("flow")[0]
+        for nd in (True, False):
+            paths = sfd.compute_inexact_flow_decomp_safe_paths(G, "lb", "ub", dec, no_duplicates=nd)
+            f, k = _flow_check(case, G, paths, "compute_inexact_flow_decomp_safe_paths", ctx + " intervals " + str(sorted((e, lo[e], hi[e]) for e in lo)), lower=lo, upper=hi)
+            n += k
+            if f:
+                return f
     return dict(ok=True, nontrivial=n > 0 and G.number_of_edges() > 1, detail=dict(checks=n))
 
 
@@ -569,7 +602,18 @@ def _model(case, cyc):
     if case["ends"]:
         kw["additional_ends"] = list(case["ends"])
     if model.startswith("kPathCover"):
-        G = _build(case)
+        grow = [tuple(e) for e in case.get("grow", [])]
+        if grow:
+            # the caller's graph object served an earlier model and was then extended in place: the model under test must prune for the graph as it is NOW
+            G = _build(dict(case, edges=[e for e in case["edges"] if tuple(e[:2]) not in grow]))
+            first = getattr(fp, "MinPathCoverCycles" if cyc else "MinPathCover")(G, solver_options={"threads": 1})
+            first.solve()
+            getattr(fp, model)(G, **dict(kw, k=max(1, case["k"])))
+            for e in case["edges"]:
+                if tuple(e[:2]) in grow:
+                    G.add_edge(e[0], e[1])
+        else:
+            G = _build(case)
         kw["elements_to_ignore"] = [tuple(e[:2]) for e in case["edges"] if tuple(e[:2]) not in X]
         return getattr(fp, model)(G, **kw), G
     if model.startswith("kMinPathError"):
